@@ -131,7 +131,7 @@ pub fn run(ctx: &Ctx) -> i32 {
         Finish {
             ctx,
             level: "exploration",
-            rule: "instances with 1-3 ports in every configuration (E2E/P2P, path trace, slave-only, master-only, acceptable-master list, minor version, log intervals, asymmetry; Kalman/Basic/recording filter; daemon forwarder / literal-contract TLV provider); histories of <= 60 (thorough 200) host calls drawn online from: well-formed protocol traffic relative to the port's observed state (so that Slave/Master/Passive/Faulty and half-collected exchanges are reached), boundary-lattice fields (corrections to +-2^63, stepsRemoved to 65535, timestamps over [0,2^63 ns) and wire timestamps to 2^48 s / 2^32-1 ns, TLV sizes around the 960-byte announce room, path traces of 0..200 identities, frames to 2048 bytes), mutated and raw frames, timers in any order, transmit timestamps in any order, BMCA with permuted port order, run-time quality / slave-only changes. Oracle: every call returns (panic hook + catch_unwind), no nested lock acquisition. Part daemon (checked run only): 200-1500 frames per case thrown at both ports of the real statime daemon (private network namespace, Ethernet and UDP/IPv4 transport): random well-formed messages of every type, mutated frames, raw bytes of 0..1400 octets, and messages the daemon has a use for (from its parent, a requester or itself) with edge values; afterwards the daemon must be alive, back in (Slave, Master), announcing, answering a fresh Delay_Req and its observation socket within 10 s. Non-trivial = some port left Listening and >= 1 frame was accepted by the parser; distinct by op list.",
+            rule: "instances with 1-3 ports in every configuration (E2E/P2P, path trace, slave-only, master-only, acceptable-master list, minor version, log intervals, asymmetry; Kalman/Basic/recording filter; daemon forwarder / literal-contract TLV provider); histories of <= 60 (thorough 200) host calls drawn online from: well-formed protocol traffic relative to the port's observed state (so that Slave/Master/Passive/Faulty and half-collected exchanges are reached), boundary-lattice fields (corrections to +-2^63, stepsRemoved to 65535, timestamps over [0,2^63 ns) and wire timestamps to 2^48 s / 2^32-1 ns, TLV sizes around the 960-byte announce room, path traces of 0..200 identities, frames to 2048 bytes), mutated and raw frames, timers in any order, transmit timestamps in any order, BMCA with permuted port order, run-time quality / slave-only changes. Oracle: every call returns (panic hook + catch_unwind), no nested lock acquisition. Part daemon (checked run only): 200-1500 frames per case thrown at both ports of the real statime daemon (private network namespace, Ethernet and UDP/IPv4 transport): random well-formed messages of every type, mutated frames, raw bytes of 0..1400 octets, messages the daemon has a use for (from its parent, a requester or itself) with edge values, and about once in 120 frames a well-formed Announce of the parent filled to the 1024-byte receive buffer with a PATH_TRACE of 8..118 identities or 10..238 propagating TLVs, followed by a BMCA period and an observation query; afterwards the daemon must be alive, back in (Slave, Master), announcing, answering a fresh Delay_Req and its observation socket within 10 s. Non-trivial = some port left Listening and >= 1 frame was accepted by the parser; distinct by op list.",
             assumptions: vec![
                 "host contract honoured by construction: each TimestampContext returned at most once, bmca gets all ports, frames <= 2048 bytes (event channel <= 1024), timestamps < 2^63 ns, |log interval| <= 4, receipt timeout 2..10".into(),
                 format!("build profile: {}", ctx.build),
